@@ -414,6 +414,11 @@ def _replay_once(cand, focus, shift):
             self.choice_calls += 1
             return np.array(idx[:int(size)], dtype=int)
 
+        def permutation(self, x):
+            n = x if isinstance(x, (int, np.integer)) else len(x)
+            full = np.array((idx + [i for i in range(n) if i not in idx])[:n], dtype=int)
+            return full if isinstance(x, (int, np.integer)) else np.asarray(x)[full]
+
     FakeHelper.evaluated = []
     rng = ReplayRng()
     helper = FakeHelper()
